@@ -239,12 +239,15 @@ ProcBegin ==
          mustBlock == reason1 # "none" /\ Mandatory # {}
          addK == mustBlock /\ ~Blocked(s) /\ ~s.deleting
          delK == ~mustBlock /\ Blocked(s)
-         fns == m1.rem \cup (IF addK THEN {"add"} ELSE {}) \cup (IF delK THEN {"del"} ELSE {})
+         \* (the framework's finalizer transformations carried over from a conflicted cycle are dropped and re-decided on this
+         \* view: fix F30; user transformations are not in this model)
+         rem0 == {}
+         fns == rem0 \cup (IF addK THEN {"add"} ELSE {}) \cup (IF delK THEN {"del"} ELSE {})
          reason2 == IF addK \/ delK THEN "none" ELSE reason1
          required == reason2 # "none"
          achieved0 == ct = 0 \/ ct <= now \/ reason2 = "gone"
      IN
-     /\ gh' = [gh EXCEPT !.staleview = @ \/ (ct # 0 /\ ct <= now /\ reason2 \in HandlerReasons /\ fns = {} /\ m1.rem = {})]
+     /\ gh' = [gh EXCEPT !.staleview = @ \/ (ct # 0 /\ ct <= now /\ reason2 \in HandlerReasons /\ fns = {} /\ rem0 = {})]
      /\ bl' = Tail(bl)
      /\ wk' = [exp |-> IF echo THEN 0 ELSE wk.exp, ctime |-> ct, pr |-> IF Tail(bl) = <<>> THEN FALSE ELSE wk.pr]
      /\ mem' = IF s.type = "DELETED" THEN FreshMem ELSE m1
@@ -252,7 +255,7 @@ ProcBegin ==
         THEN \* wait for the echo of the own patch (interruptible by newer events)
              /\ pc' = "cwait"
              /\ cyc' = [NoCyc EXCEPT !.s = s, !.reason = reason2, !.wake = ct, !.fns = fns]
-        ELSE IF required /\ ~(achieved0 /\ m1.rem = {})
+        ELSE IF required /\ ~(achieved0 /\ rem0 = {})
         THEN \* inconsistent and a patch is pending: no change handlers in this cycle
              /\ pc' = "plan"
              /\ cyc' = [NoCyc EXCEPT !.s = s, !.reason = "none", !.fns = fns, !.skipped = TRUE]
@@ -509,7 +512,9 @@ Terminal == up /\ ~ENABLED Urgent /\ chan = <<>> /\ bl = <<>> /\ now = Horizon /
 Family_F20 == gh.reverted         \* an edit that restores the last-handled essence (A -> B -> A): NOOP, records may stay
 Family_F21 == gh.staleview        \* handlers ran on a view older than the own last write after the consistency timeout
 Family_F22 == gh.leftunmatched    \* the object stopped matching the handlers' filters: the framework turns blind to it
-TerminalConverged == Terminal => (Converged \/ Family_F20 \/ Family_F21 \/ Family_F22)
+\* an object marked for deletion that the framework's finalizer does not hold is "gone" for the framework: what a cycle left unfinished stays
+Family_F31 == obj.exists /\ Released /\ \E h \in H : obj.prog[h] # NoRec
+TerminalConverged == Terminal => (Converged \/ Family_F20 \/ Family_F21 \/ Family_F22 \/ Family_F31)
 Witness_F20 == ~(Terminal /\ ~Converged /\ Family_F20 /\ ~Family_F21 /\ ~Family_F22)
 Witness_F21 == ~(Terminal /\ ~Converged /\ Family_F21 /\ ~Family_F20 /\ ~Family_F22)
 Witness_F22 == ~(Terminal /\ ~Converged /\ Family_F22 /\ ~Family_F20 /\ ~Family_F21)
